@@ -14,3 +14,8 @@ def mf_replay_batch(mods, scns):
     for s in scns:
         out.append(mfrep.replay(mods, s))
     return out
+
+
+def cpp_generate(mods, scn, cse, outdir, kind="ekf", presentation=None, via_entry=False):
+    import cpprep
+    return cpprep.generate_task(mods, scn, cse, outdir, kind=kind, presentation=presentation, via_entry=via_entry)
